@@ -60,37 +60,47 @@ def run_jobs(jobs, nproc=14):
             out.append(r)
     return out
 
-def write_batches(pid, fams, per_batch):
-    """fams: list of family results (with events).  -> list of (path, [(first_line, last_line, fam_index)])"""
+def write_batches(pid, fams, per_batch, modof=None):
+    """fams: list of family results (with events).  -> list of (path, [(first_line, last_line, fam_index)], module);
+    families validated by different trace specifications go to different batches"""
     d = os.path.join(TRACES, pid)
     shutil.rmtree(d, ignore_errors=True)
     os.makedirs(d, exist_ok=True)
     batches = []
-    cur, spans, line = [], [], 0
-    def flush():
-        nonlocal cur, spans, line
-        if cur:
-            path = os.path.join(d, "b%03d.ndjson" % len(batches))
-            with open(path, "w") as f:
-                for e in cur:
-                    f.write(json.dumps(e, separators=(",", ":")) + "\n")
-            batches.append((path, spans))
+    mods = []
+    for fr in fams:
+        m = modof(fr) if modof else None
+        if m not in mods:
+            mods.append(m)
+    for m in mods:
         cur, spans, line = [], [], 0
-    cost = 0
-    for i, fr in enumerate(fams):
-        evs = fr["events"]
-        spans.append((line + 1, line + len(evs), i))
-        cur += evs
-        line += len(evs)
-        cost += 1
-        if cost >= per_batch:
-            flush(); cost = 0
-    flush()
+        cost = 0
+        def flush():
+            nonlocal cur, spans, line
+            if cur:
+                path = os.path.join(d, "b%03d.ndjson" % len(batches))
+                with open(path, "w") as f:
+                    for e in cur:
+                        f.write(json.dumps(e, separators=(",", ":")) + "\n")
+                batches.append((path, spans, m))
+            cur, spans, line = [], [], 0
+        for i, fr in enumerate(fams):
+            if (modof(fr) if modof else None) != m:
+                continue
+            evs = fr["events"]
+            spans.append((line + 1, line + len(evs), i))
+            cur += evs
+            line += len(evs)
+            cost += 1
+            if cost >= per_batch:
+                flush(); cost = 0
+        flush()
     return batches
 
 def validate_batches(batches, module, jobs=8, timeout=300):
-    res = T.validate_many([b[0] for b in batches], module=module, jobs=jobs, timeout=timeout)
-    return res
+    from concurrent.futures import ThreadPoolExecutor
+    with ThreadPoolExecutor(max_workers=jobs) as ex:
+        return list(ex.map(lambda b: T.validate(b[0], b[2] or module, timeout), batches))
 
 def fam_of_line(spans, l):
     for a, b, i in spans:
@@ -170,8 +180,9 @@ def main():
     if not good:
         log("no family could be built"); sys.exit(2)
     module = plan.get("module", "Script_Trace")
-    batches = write_batches(pid, good, plan.get("per_batch", 12))
-    log("[%s] %d batches, validating with TLC (%s)" % (pid, len(batches), module))
+    modof = lambda f: f["job"].get("module") or module
+    batches = write_batches(pid, good, plan.get("per_batch", 12), modof)
+    log("[%s] %d batches, validating with TLC (%s)" % (pid, len(batches), ", ".join(sorted(set(b[2] for b in batches)))))
     res = validate_batches(batches, module, jobs=plan.get("tlc_jobs", 8))
     viols = []          # (family index, violation)
     dropped = 0
@@ -179,7 +190,7 @@ def main():
     states = 0
     sat_stats = {"sat": 0, "unsat": 0, "unknown": 0, "skipped": 0}
     retry = []
-    for (path, spans), r in zip(batches, res):
+    for (path, spans, _m), r in zip(batches, res):
         if r["error"] is not None:
             retry += [i for _, _, i in spans]
             continue
@@ -203,7 +214,7 @@ def main():
     if retry:
         log("[%s] re-validating %d families one by one" % (pid, len(retry)))
         paths = [single_trace(pid, good[i], "r%04d" % i) for i in retry]
-        rr = T.validate_many(paths, module=module, jobs=plan.get("tlc_jobs", 8), timeout=150)
+        rr = validate_batches([(p_, None, modof(good[i])) for p_, i in zip(paths, retry)], module, jobs=plan.get("tlc_jobs", 8), timeout=150)
         for i, r in zip(retry, rr):
             if r["error"] is not None:
                 dropped += 1
@@ -249,7 +260,7 @@ def main():
         ok2 = False
         if "error" not in again:
             p2 = single_trace(pid, again, "c%04d" % i)
-            r2 = T.validate(p2, module=module)
+            r2 = T.validate(p2, module=modof(fr))
             vs2 = [dict(v, p=remap(v, r2["viols"])) for v in r2["viols"]]
             if r2["rejected_at"] is not None:
                 vs2.append({"p": plan.get("reject_owner", pid), "rejected": True})
@@ -271,7 +282,7 @@ def main():
         print("KNOWN-FINDING: property=%s %s [%s, %d occurrence(s)]" % (pid, k["what"], kid, n))
     rc = 0
     for n, (i, vs) in enumerate(confirmed[:10]):
-        d = save_replay(pid, n, good[i], vs, module)
+        d = save_replay(pid, n, good[i], vs, modof(good[i]))
         print("VIOLATION property=%s replay=%s" % (pid, d))
         print("  " + json.dumps({k: v for k, v in vs[0].items() if not k.startswith("_")})[:600])
         rc = 1
